@@ -453,7 +453,7 @@ void f_mult_eq () {
     {
     case T_NUMBER: /* number *= number (result: number) */
       {
-        sp->u.number = (argp->u.number *= sp->u.number);
+        sp->u.number = argp->u.number = LPC_INT_MUL (argp->u.number, sp->u.number);
         sp->subtype = 0;
         break;
       }
@@ -884,7 +884,7 @@ void f_sub_eq () {
     {
     case T_NUMBER: /* number -= number */
       {
-        sp->u.number = argp->u.number -= sp->u.number;
+        sp->u.number = argp->u.number = LPC_INT_SUB (argp->u.number, sp->u.number);
         sp->subtype = 0;
         break;
       }
